@@ -8,6 +8,8 @@ from .. import paths
 from ..core import FUNC, call_attr, calls_in, const, dotted, is_const, kwarg, norm, text, walk_local
 
 EXPLANATION = [
+    'C12.subscriber-lifetime: every per-bearer table the notify/indicate/CCCD paths consult is dropped in Server.on_disconnection.',
+    'C12.client-group-ends: in the client, every characteristic declaration of a response closes the previous characteristic at handle-1 and is recorded on every path of the per-declaration loop (filtering by UUID happens after the ranges are final).',
     'C12.progress: every request loop of gatt_client.Client (services, service by UUID, included services, characteristics, '
     'descriptors, attributes) advances its start handle, on every back edge, to one more than a handle taken from the response '
     'list it just validated: the list is tested non-empty first, every item is checked to be >= the previous start (monotonic '
@@ -342,7 +344,100 @@ def group_ends(ctx):
     R.check(ok and order == ['characteristic_declaration', 'characteristic'], rule, f'{SRV}.add_service | value handle', 'declaration announces next_handle()+1 and the value attribute is added right after the declaration', 'the value handle announced in the declaration is not the handle the value attribute receives', p.loc(char_loop))
 
 
+
+def subscriber_lifetime(ctx):
+    """A subscription lives as long as its bearer: the table the notify paths read is dropped when the bearer goes away."""
+    R, p = ctx.r, ctx.p
+    rule = 'C12.subscriber-lifetime'
+    m = p.find(f'{SRV}.on_disconnection')
+    if m is None:
+        R.bad(rule, f'{SRV}.on_disconnection', 'anchor missing')
+        return
+    bearer = m.args.args[1].arg
+    dropped = set()
+    for c in calls_in(m):
+        if call_attr(c) == 'pop' and c.args and norm(c.args[0]) == bearer:
+            recv = c.func.value
+            d = dotted(recv)
+            if d and d.startswith('self.'):
+                dropped.add(d[5:])
+            elif isinstance(recv, ast.Name):
+                # `for table in (self.a, self.b): table.pop(bearer, None)`
+                for f in walk_local(m):
+                    if isinstance(f, ast.For) and isinstance(f.target, ast.Name) and f.target.id == recv.id and isinstance(f.iter, (ast.Tuple, ast.List)):
+                        dropped |= {dotted(e)[5:] for e in f.iter.elts if (dotted(e) or '').startswith('self.')}
+    for n in walk_local(m):
+        if isinstance(n, ast.Delete):
+            for t in n.targets:
+                if isinstance(t, ast.Subscript) and norm(t.slice) == bearer and (dotted(t.value) or '').startswith('self.'):
+                    dropped.add(dotted(t.value)[5:])
+    # tables the notify / indicate paths consult per bearer
+    read = set()
+    for mname in ('_notify_single_subscriber', '_indicate_single_bearer', 'write_cccd', 'read_cccd'):
+        f = p.find(f'{SRV}.{mname}')
+        for x in ast.walk(f) if f is not None else []:
+            if isinstance(x, ast.Call) and call_attr(x) in ('get', 'setdefault') and x.args and norm(x.args[0]) == 'bearer' and (dotted(x.func.value) or '').startswith('self.'):
+                read.add(dotted(x.func.value)[5:])
+    R.check('subscribers' in read and read <= dropped, rule, f'{SRV}.on_disconnection | per-bearer subscription state', f'drops {sorted(dropped)}; notify/indicate paths consult {sorted(read)}',
+            f'the server keeps {sorted(read - dropped)} for a bearer that is gone: the next client that gets the same connection handle receives notifications it never subscribed to', p.loc(m))
+
+
+def client_group_ends(ctx):
+    """Every characteristic declaration in a response ends the previous characteristic's handle range."""
+    R, p = ctx.r, ctx.p
+    rule = 'C12.client-group-ends'
+    m = p.find(f'{CLI}.discover_characteristics')
+    if m is None:
+        R.bad(rule, f'{CLI}.discover_characteristics', 'anchor missing')
+        return
+    loop = next((x for x in ast.walk(m) if isinstance(x, ast.For) and norm(x.iter) == 'response.attributes'), None)
+    if loop is None:
+        R.bad(rule, f'{CLI}.discover_characteristics | per-declaration loop', 'loop over response.attributes not found', p.loc(m))
+        return
+    hvar = loop.target.elts[0].id if isinstance(loop.target, ast.Tuple) else None
+
+    class D(paths.Domain):
+        # v = (closed, appended)
+        def event(self, node, v):
+            closed, appended = v
+            if isinstance(node, ast.Assign) and any(norm(t).endswith('[-1].end_group_handle') for t in node.targets):
+                if hvar and norm(node.value) == f'{hvar} - 1':
+                    closed = True
+            if isinstance(node, ast.Call) and call_attr(node) == 'append':
+                appended = True
+            return ((closed, appended),)
+
+        def assume(self, atom, truth, v):
+            closed, appended = v
+            # `if characteristics:` false: there is no previous characteristic to close
+            if isinstance(atom, ast.Name) and not truth:
+                closed = True
+            return ((closed, appended),)
+
+        def ret(self, node, v):
+            return 'abort'
+    res = paths.run_block(loop.body, D(), (False, False))
+    bad = []
+    n = 0
+    for k, st in res.items():
+        if k.startswith('ret') or k.startswith('raise'):
+            continue
+        for (closed, appended), w in st.items():
+            n += 1
+            if not closed:
+                bad.append(f'a declaration is passed over without ending the previous characteristic ({" ".join(w)})')
+            if not appended:
+                bad.append(f'a declaration is not recorded ({" ".join(w)})')
+    R.check(n >= 1 and not bad, rule, f'{CLI}.discover_characteristics | every declaration ends the previous group', 'each declaration closes the previous characteristic at handle - 1 and is recorded, before any filtering',
+            'a characteristic declaration can be skipped without closing the previous characteristic: its handle range then swallows the neighbours (descriptor discovery returns foreign attributes)', p.loc(loop), bad[:2])
+    # the last one ends with the service, and filtering happens after the ranges are final
+    s = norm(m)
+    R.check('characteristics[-1].end_group_handle = service.end_group_handle' in s, rule, f'{CLI}.discover_characteristics | last group', 'the last characteristic ends with the service', 'the last characteristic is not closed at the end of the service', p.loc(m))
+
+
 RULES = [
+    ('C12.subscriber-lifetime', subscriber_lifetime),
+    ('C12.client-group-ends', client_group_ends),
     ('C12.progress', progress),
     ('C12.kind', kind),
     ('C12.cccd-bits', cccd_bits),
@@ -370,4 +465,7 @@ VARIANTS = [
     ('characteristic end handle before CCCD', 'bumble/gatt_server.py',
      "            # If the characteristic supports subscriptions, add a CCCD descriptor\n            # unless there is one already\n",
      "            characteristic.end_group_handle = self.attributes[-1].handle\n            # If the characteristic supports subscriptions, add a CCCD descriptor\n            # unless there is one already\n", 'fire', 'C12.group-ends'),
+    ('subscriptions survive the bearer', 'bumble/gatt_server.py', "        self.subscribers.pop(bearer, None)\n", "", 'fire', 'C12.subscriber-lifetime'),
+    ('benign: tables dropped in a loop', 'bumble/gatt_server.py', "        self.subscribers.pop(bearer, None)\n        self.indication_semaphores.pop(bearer, None)\n        self.pending_confirmations.pop(bearer, None)\n", "        for table in (self.subscribers, self.indication_semaphores, self.pending_confirmations):\n            table.pop(bearer, None)\n", 'silent', ''),
+    ('filtered declarations do not close the previous group', 'bumble/gatt_client.py', "                    characteristic_uuid = UUID.from_bytes(attribute_value[3:])\n", "                    characteristic_uuid = UUID.from_bytes(attribute_value[3:])\n                    if uuids and characteristic_uuid not in uuids:\n                        continue\n", 'fire', 'C12.client-group-ends'),
 ]
